@@ -1087,9 +1087,17 @@ impl MutableArchive {
 
         let table_size = hash_table.size() as u32;
         let mut index = table_offset & (table_size - 1);
+        #[cfg(warcraft_rs_verif)]
+        let mut verif_steps = 0usize;
 
         // Linear probing to find empty or deleted slot
         loop {
+            #[cfg(warcraft_rs_verif)]
+            crate::verif_hooks::probe_step(
+                "modification::add_to_hash_table",
+                &mut verif_steps,
+                table_size as usize,
+            );
             let entry = hash_table.get_mut(index as usize).ok_or_else(|| {
                 Error::InvalidFormat("Hash table index out of bounds".to_string())
             })?;
